@@ -241,6 +241,28 @@ def register(reg):
         flags={'max_paths': 2000}, raises_any=['ValueError'],
         ensures=[("identity", "same(result, spectrum)"), ("pairs", stark_pairs)])
 
+    # widths handed to the two parts (verified on the tail of add_line that starts where the Lorentzian share is computed; F0 = the full
+    # width computed before it, sigma0 = F0 / (2 sqrt(2 ln 2)) as the code has it there): the Gaussian part gets sigma0 unless the line is
+    # purely Lorentzian, the Lorentzian part gets F0 unless purely Gaussian.  A zero width makes add_gaussian_line / add_lorentzian_line
+    # return at once, so a part that carries radiance must come with its width - otherwise radiance is lost (not normalised any more).
+    def stark_widths(P):
+        evs = [e for e in P.st.log if e.label in (GA, LO)]
+        out = [('stark.widths.some_component', z3.BoolVal(len(evs) >= 2 and len(evs) % 2 == 0))]
+        gs = to_real(P.value("ite(fwhm_lorentz / fwhm_full > 0.999, 0, fwhm_full / _SIGMA2FWHM)"))
+        ls = to_real(P.value("ite(fwhm_lorentz / fwhm_full < 0.01, 0, fwhm_full)"))
+        for j, e in enumerate(evs):
+            out.append(('stark.widths.%s%d' % ('gaussian' if e.label == GA else 'lorentzian', j // 2), to_real(e.args[2]) == (gs if e.label == GA else ls)))
+        return out
+    reg.contract(S, "StarkBroadenedLine.add_line", PROP, name='widths',
+        sorts=dict(common['sorts'], fwhm_lorentz='real', fwhm_full='real', fwhm_gauss='real', sigma='real'),
+        attrs={'_weight_poly_coeff': 'seq:real'}, ghost=dict(common['ghost']),
+        requires=common['requires'] + pol_ok + ["not is_none(self.integrator)", "not is_none(self.plasma)", "length(self._weight_poly_coeff) == 6",
+                  "not is_none(self._weight_poly_coeff)", "fwhm_full > 0", "fwhm_lorentz >= 0",
+                  # the statement before the tail, if the code computes sigma there (as the unchanged code does)
+                  "sigma == fwhm_full / _SIGMA2FWHM"],
+        flags={'max_paths': 2000, 'stmts_from': 'fwhm_lorentz_to_total = fwhm_lorentz / fwhm_full'}, raises_any=['ValueError'],
+        ensures=[("widths", stark_widths)])
+
     # ------------------------------------------------------------------ motional Stark multiplet (beam emission)
     mse_ghost = {
         "pl()": "self.beam.get_plasma()",
@@ -476,6 +498,36 @@ print(json.dumps({"integral_before_caller_reuses_table": float(first.sum() * 0.0
         return {'confirmed': bool(out) and out.get('equal') is False, 'observed': out,
                 'input': 'MultipletLineShape(..., table); then table[...] = other values (in place); add_line()',
                 'expected': 'same spectrum as a model built from a pristine copy of the table'}
+    if 'StarkBroadenedLine' in o.name:
+        # normalisation of the real model over electron densities from the Doppler-dominated to the Stark-dominated regime, with and
+        # without magnetic field, all polarisations (window 200 nm wide: 2 % tolerance for the Lorentzian wings)
+        code = """
+import numpy as np
+from raysect.optical import World, Point3D, Vector3D, Spectrum
+from cherab.core.atomic import Line, deuterium, AtomicData
+from cherab.core.model import StarkBroadenedLine
+from cherab.tools.plasmas.slab import build_constant_slab_plasma
+from raysect.core.math.function.vector3d import Constant3D as CV
+bad = []; n = 0
+line = Line(deuterium, 0, (3, 2))
+for ne in (1e15, 1e17, 1e18, 1e19, 1e20, 1e21, 1e23):
+    for b in ((0, 0, 0), (0.5, 2.0, 1.0)):
+        plasma = build_constant_slab_plasma(length=1, width=1, height=1, electron_density=ne, electron_temperature=20.,
+                                            plasma_species=[(deuterium, 0, 1e17, 5., Vector3D(0, 0, 0))], b_field=Vector3D(*b), parent=World())
+        sp = plasma.composition.get(deuterium, 0)
+        tot = {}
+        for pol in ('no', 'pi', 'sigma'):
+            m = StarkBroadenedLine(line, 656.1, sp, plasma, AtomicData(), polarisation=pol)
+            s = Spectrum(556., 756., 40000); m.add_line(2.5, Point3D(0.5, 0, 0), Vector3D(1, 0.3, 0.2), s)
+            tot[pol] = float(s.samples.sum() * s.delta_wavelength); n += 1
+        want = {'no': 2.5}
+        if not abs(tot['no'] - 2.5) <= 0.02 * 2.5 or not abs(tot['pi'] + tot['sigma'] - 2.5) <= 0.02 * 2.5:
+            bad.append({"electron_density": ne, "b_field": b, "integrals": tot, "expected_unpolarised": 2.5})
+print(json.dumps({"cases": n, "bad": bad[:4], "nbad": len(bad)}))
+"""
+        out = run_native(ctx, code, timeout=600)
+        return {'confirmed': bool(out) and bool(out.get('nbad')), 'observed': out, 'input': (out or {}).get('bad', [None])[0] if out and out.get('bad') else None,
+                'expected': 'spectral integral = radiance (unpolarised); pi + sigma = radiance'}
     if 'GaussianQuadrature' not in o.name:
         return None
     code = """
